@@ -154,7 +154,7 @@ func scopesC07orders(thorough bool) []Scope {
 	// every walk over the four pixel centres as the shell (rings wound twice, figure-eights, back-traces:
 	// several equal or nested outer rings) with a fixed triangular hole inside the centre square, whose
 	// snapped vertices lie on all of those outer rings: hole matching must choose among equal candidates
-	scs = append(scs, shellWalkScope(k(8, 9)))
+	scs = append(scs, shellWalkScope(k(8, 9)), holeWalkOnShellScope(k(8, 9)))
 	// the families of larger polygons (rings that split into several outer rings, holes that must be
 	// matched to one of several shells, equal pieces that cancel): the places where a choice among
 	// equal candidates can depend on an iteration order
@@ -173,6 +173,15 @@ func shellWalkScope(maxK int) Scope {
 	centres := []ref.P{{2, 2}, {6, 2}, {2, 6}, {6, 6}}
 	hole := []ref.P{{3, 3}, {3, 5}, {5, 3}}
 	return Scope{Name: "S-walk+hole", GS: synthGS(0, 4, [2]int64{6, 6}), Spec: lat.Spec{Suffix: [][]ref.P{hole}, Points: centres, MinK: 3, MaxK: maxK, Repeats: true, NoStutter: true}, IDSets: [][]int{{0}}, Cfgs: keepCfgs}
+}
+
+// holeWalkOnShellScope: the mirror image: a fixed shell that snaps to the four centres and every walk over the same
+// four centres as its hole: hole pieces that turn into outer rings equal to the shell (with other start vertices),
+// inner pieces equal to both: groups of equal rings with several outers and inners, of which some must cancel
+func holeWalkOnShellScope(maxK int) Scope {
+	centres := []ref.P{{2, 2}, {6, 2}, {2, 6}, {6, 6}}
+	shell := []ref.P{{1, 1}, {7, 1}, {7, 7}, {1, 7}}
+	return Scope{Name: "H-walk-on-shell", GS: synthGS(0, 4, [2]int64{6, 6}), Spec: lat.Spec{Prefix: [][]ref.P{shell}, Points: centres, MinK: 3, MaxK: maxK, Repeats: true, NoStutter: true}, IDSets: [][]int{{0}}, Cfgs: keepCfgs}
 }
 
 func scopesC07plain(thorough bool) []Scope {
